@@ -292,6 +292,82 @@ def run(repo: Repo, rep: Report, tier: str) -> None:
     rep.rule("fragments-complete", "the data-set bytes are cut into consecutive fragments that together are the whole data set and are re-joined in order (C15's fragmentation rules)")
     delegate(repo, rep, tier, "C15", ("overhead", "overhead-count", "order-flags", "reader-bits", "reader-complete", "one-pdv"), "fragments-complete", "for some data-set length and peer maximum the bytes that arrive are not the bytes that were sent (a tail that is never sent, a fragment read out of place)")
 
+    check_store_subop_dataset_intact(repo, rep)
+    check_chunk_file_flushed(repo, rep)
     from ..lints import no_memoised_io
     rep.rule("no-stale-meta", "no function whose result depends on a file or on configuration is memoised")
     rep.floor("functions scanned for memoising decorators", no_memoised_io(repo, rep, "no-stale-meta"), 500)
+
+
+def check_store_subop_dataset_intact(repo: Repo, rep: Report) -> None:
+    """A data set the C-GET / C-MOVE handler yields is sent to the destination as it is. The one documented
+    exception is the Composite Instance Retrieve Without Bulk Data service (SOP class
+    1.2.840.10008.5.1.4.1.2.5.3), for which bulk data is stripped: every statement of _get_scp / _move_scp that
+    removes something from the yielded data set (del x[..], del x.attr, delattr, pop, a deleting loop) must be
+    under the test for that SOP class."""
+    rep.rule("subop-intact", "_get_scp / _move_scp remove elements from the handler's data set only under the Without-Bulk-Data SOP class test")
+    sc = repo.mod("service_class")
+    n = 0
+    for q in ("QueryRetrieveServiceClass._get_scp", "QueryRetrieveServiceClass._move_scp"):
+        fn = repo.func("service_class", q)
+        fq = f"service_class.{q}"
+        for x in walk_no_nested(fn):
+            removes = None
+            if isinstance(x, ast.Delete):
+                removes = x
+            elif isinstance(x, ast.Expr) and isinstance(x.value, ast.Call) and (norm(x.value.func) == "delattr" or (isinstance(x.value.func, ast.Attribute) and x.value.func.attr in ("pop", "popitem", "clear", "remove_private_tags") and norm(x.value.func.value) in ("dataset", "ds_copy"))):
+                removes = x
+            if removes is None:
+                continue
+            txt = norm(removes)
+            if not any(k in txt for k in ("dataset", "item", "seq")):
+                continue
+            n += 1
+            g = enclosing(removes, (ast.If,))
+            ok = False
+            while g is not None and not ok:
+                if "1.2.840.10008.5.1.4.1.2.5.3" in norm(g.test) or "WithoutBulkData" in norm(g.test):
+                    ok = any(y is removes for s_ in g.body for y in ast.walk(s_))
+                g = enclosing(g, (ast.If,))
+            rep.check(ok, "subop-intact", fq, removes, f"`{txt[:60]}` removes elements from the data set the handler yielded outside the Composite Instance Retrieve Without Bulk Data test: every retrieved instance loses them (e.g. overlay / curve / audio data of the 50xx / 60xx repeating groups) although the sub-operation reports Success", mod=sc, node=removes)
+    rep.floor("element removals in the C-GET / C-MOVE SCPs", n, 2)
+
+
+def check_chunk_file_flushed(repo: Repo, rep: Report) -> None:
+    """Chunked receive: each data-set fragment is written to the temporary file and must be on disk before
+    anything reads the file through its path (Event.dataset / dataset_path / encoded_dataset). Either the
+    fragment write in decode_msg is followed by a flush in the same block, or *every* function that triggers
+    EVT_C_STORE flushes the request's file first - the Storage SCP and the requestor-side _c_store_scp (C-GET
+    sub-operations) alike."""
+    rep.rule("chunk-flushed", "the chunk file is flushed after every fragment, or before the handler in every EVT_C_STORE trigger site")
+    msgs = repo.mod("dimse_messages")
+    dec = repo.func("dimse_messages", "DIMSEMessage.decode_msg")
+    writes = [c for c in walk_no_nested(dec) if isinstance(c, ast.Call) and isinstance(c.func, ast.Attribute) and c.func.attr == "write" and norm(c.func.value) == "self._data_set_file" and c.args and isinstance(c.args[0], ast.Subscript)]
+    if not writes:
+        rep.defer("dimse_messages.DIMSEMessage.decode_msg: the fragment write to the chunk file was not found")
+        return
+    all_local = True
+    for w in writes:
+        st = enclosing(w, (ast.stmt,))
+        blk = next((b for p in ast.walk(dec) for b in (getattr(p, "body", None), getattr(p, "orelse", None)) if isinstance(b, list) and any(x is st for x in b)), [])
+        k = next((i for i, x in enumerate(blk) if x is st), -1)
+        after = blk[k + 1:] if k >= 0 else []
+        if not any(isinstance(s_, ast.Expr) and isinstance(s_.value, ast.Call) and isinstance(s_.value.func, ast.Attribute) and s_.value.func.attr == "flush" and norm(s_.value.func.value).startswith("self._data_set_file") for s_ in after):
+            all_local = False
+    if all_local:
+        rep.ok("chunk-flushed", "dimse_messages.DIMSEMessage.decode_msg :: every fragment write is followed by a flush")
+        return
+    # otherwise: every trigger site of EVT_C_STORE must be dominated by a flush of the request's file
+    bad = []
+    for mname, q in (("service_class", "StorageServiceClass.SCP"), ("association", "Association._c_store_scp")):
+        fn = repo.func(mname, q)
+        cfg = CFG(fn, body=body_nodoc(fn), local_exc_only=True)
+        trig = [n for n in cfg.nodes if n.ast is not None and n.kind in ("stmt", "with_enter") and any(norm(c.func) == "evt.trigger" and len(c.args) > 1 and norm(c.args[1]).endswith("EVT_C_STORE") for c in calls_at(n))]
+        fl = [n for n in cfg.nodes if n.kind == "stmt" and any(isinstance(c.func, ast.Attribute) and c.func.attr == "flush" and "_dataset_file" in norm(c.func.value) for c in calls_at(n))]
+        for t in trig:
+            if not any(cfg.dominates(f_, t) for f_ in fl):
+                bad.append((mname, q, t))
+    for mname, q, t in bad:
+        rep.fail("chunk-flushed", f"{mname}.{q}", t.ast, "decode_msg no longer flushes the chunk file after each fragment and this EVT_C_STORE trigger site does not flush it either: its handler reads a truncated (or empty) file through Event.dataset / dataset_path / encoded_dataset while the status says Success", mod=repo.mod(mname), node=t.ast)
+    if not bad:
+        rep.ok("chunk-flushed", "every EVT_C_STORE trigger site flushes the request's chunk file first")
